@@ -645,6 +645,13 @@ fn s5(cache_idx: usize, prefix: &[usize], pre_savepoint: bool) -> (ExecResult, V
             x.insert(100, val(100, 700).as_slice()).unwrap();
             x.insert(101, val(101, 40).as_slice()).unwrap();
             x.remove(10).unwrap();
+            // copy-on-write of a committed leaf through get_mut (holds the transaction's shared
+            // freed-page list across a page allocation)
+            {
+                let mut g = x.get_mut(12).unwrap().unwrap();
+                g.insert(val(112, 40).as_slice()).unwrap();
+            }
+            x.insert(13, val(113, 40).as_slice()).unwrap();
         }));
     }
     {
@@ -705,6 +712,8 @@ fn s5(cache_idx: usize, prefix: &[usize], pre_savepoint: bool) -> (ExecResult, V
             t.insert(crate::types::Val::U(100), crate::types::Val::B(val(100, 700)));
             t.insert(crate::types::Val::U(101), crate::types::Val::B(val(101, 40)));
             t.remove(&crate::types::Val::U(10));
+            t.insert(crate::types::Val::U(12), crate::types::Val::B(val(112, 40)));
+            t.insert(crate::types::Val::U(13), crate::types::Val::B(val(113, 40)));
             let m = want.get_mut("mm").unwrap().m_mut();
             let s = m.get_mut(&crate::types::Val::U(7)).unwrap();
             for v in [100u64, 101, 102] {
